@@ -206,6 +206,14 @@ def check_year(mode, y):
                           (pw.year, pw.week_of_year, pw.day_of_week,
                            pw.get_is_week_date()))
                     e2 = (c + (True,), o + (True,), w + (True,))
+                    mixed = [v for v in (pc, po, pw) if sum(
+                        [v.get_is_calendar_date(), v.get_is_ordinal_date(),
+                         v.get_is_week_date()]) != 1]
+                    if mixed:
+                        fails.append("timepoint_to_form: a view of %s claims "
+                                     "more than one representation: %r" % (
+                                         p, dict(mixed[0].get_props())))
+                        break
                     if g2 != e2:
                         fails.append("timepoint_to: %s -> %r ref %r" % (
                             p, g2, e2))
